@@ -264,17 +264,7 @@ func (r *flashRun) level() (uint8, bool) {
 func (r *flashRun) genGo(op *flashOp) {
 	s := r.s
 	budget := 1200
-	n := simrt.PickS(s, 1, 2, 3, 0, 5)
-	for i := 0; i < n; i++ {
-		m := flashMsg{Key: r.str(&budget), Value: r.str(&budget)}
-		if i > 0 && s.Chance(150) {
-			m.Key = op.with[s.Draw(len(op.with))].Key // repeated key
-		}
-		lv, has := r.level()
-		m.Level = lv
-		op.with = append(op.with, m)
-		op.hasLevel = append(op.hasLevel, has)
-	}
+	r.genWith(op, simrt.PickS(s, 1, 2, 3, 0, 5), &budget)
 	if s.Chance(300) {
 		op.inputMode = s.Range(1, 3)
 		ni := s.Range(0, 3)
@@ -286,6 +276,22 @@ func (r *flashRun) genGo(op *flashOp) {
 	}
 	op.route = s.Chance(250)
 	op.status = simrt.PickS(s, 0, 303, 301, 307)
+}
+
+func (r *flashRun) genWith(op *flashOp, n int, budgetp *int) {
+	s := r.s
+	budget := *budgetp
+	defer func() { *budgetp = budget }()
+	for i := 0; i < n; i++ {
+		m := flashMsg{Key: r.str(&budget), Value: r.str(&budget)}
+		if i > 0 && s.Chance(150) {
+			m.Key = op.with[s.Draw(len(op.with))].Key // repeated key
+		}
+		lv, has := r.level()
+		m.Level = lv
+		op.with = append(op.with, m)
+		op.hasLevel = append(op.hasLevel, has)
+	}
 }
 
 // ---------------------------------------------------------------------------------------------
@@ -835,6 +841,7 @@ type flashWire struct {
 	found   bool
 	line    string // set-cookie-string
 	value   string
+	live    bool   // found and not an expiring ("delete") cookie
 	problem string // why an RFC 6265 sec. 5 user agent cannot take the value ("" = it can)
 	kind    string // header-injection | control-byte | delimiter | malformed
 }
@@ -883,12 +890,23 @@ func flashLenient(raw []byte, name, server string) flashWire {
 				break
 			}
 		}
+		w.live = true
 		for _, p := range parts[1:] {
-			an := p
+			an, av := p, ""
 			if e := strings.IndexByte(p, '='); e >= 0 {
-				an = p[:e]
+				an, av = p[:e], strings.Trim(p[e+1:], " \t")
 			}
 			an = strings.ToLower(strings.Trim(an, " \t"))
+			switch an {
+			case "max-age":
+				if n, err := strconv.Atoi(av); err == nil && n <= 0 {
+					w.live = false
+				}
+			case "expires":
+				if t, err := time.Parse(time.RFC1123, av); err == nil && !t.After(time.Now()) {
+					w.live = false
+				}
+			}
 			if !flashKnownAttr[an] && attr == "" {
 				attr = p
 			}
@@ -1001,6 +1019,24 @@ func flashMain(s *simrt.Sim, info *harness.RunInfo) {
 		record(c, op)
 		return c.SendString("ok")
 	}
+	// hop: consume the messages, then redirect again without (hop) or with new messages (hop2)
+	hop := func(c fiber.Ctx) error {
+		op := opOf(c)
+		record(c, op)
+		rd := c.Redirect()
+		for i, m := range op.with {
+			if op.hasLevel[i] {
+				rd.With(m.Key, m.Value, m.Level)
+			} else {
+				rd.With(m.Key, m.Value)
+			}
+		}
+		err := rd.To("/show")
+		op.srvCookie = string(c.Response().Header.PeekCookie(flashName))
+		return err
+	}
+	app.Get("/hop", hop)
+	app.Get("/hop2", hop)
 	app.Get("/show", show).Name("show")
 	app.Get("/plain", show)
 	app.Get("/nest", show)
@@ -1040,7 +1076,7 @@ func (r *flashRun) step(bi, depth int) {
 	s := r.s
 	b := r.browsers[bi]
 	st := r.st[bi]
-	kinds := []string{"show", "show", "plain"}
+	kinds := []string{"show", "show", "plain", "hop", "hop2"}
 	if depth == 0 && r.nb > 1 {
 		kinds = append(kinds, "nest")
 	}
@@ -1134,20 +1170,31 @@ func (r *flashRun) redirect(bi int) {
 		return
 	}
 	r.noneExpected(op, resp, "POST /go without a flash cookie")
-	alts := flashExpected(op)
-	attached := len(alts[0]) > 0
-
-	// tier 1: the strict client
 	_, err := b.Apply(resp, "POST")
 	wire := flashLenient(resp.Raw, flashName, op.srvCookie)
+	st.pending, st.hostile, st.tier, st.after = nil, nil, "", false
 	sv, stored := b.Get(flashName)
+	outcome := r.issue(bi, op, wire, err, "POST /go", sv, stored)
+	r.remember(op.with)
+	r.remember(op.inputs)
+	s.Logf("op%d ret status=%d location=%q set-cookie=%v tier=%s", op.id, resp.Status, resp.Get("Location"), wire.live, outcome)
+	r.h.str("go").int(bi).str(outcome)
+}
+
+// issue: which client tier takes the cookie a redirect wrote. err, sv, stored are
+// the strict client's verdict on this response alone (a store that was empty
+// before); the caller has already removed any previous flash cookie.
+func (r *flashRun) issue(bi int, op *flashOp, wire flashWire, err error, what, sv string, stored bool) string {
+	s := r.s
+	b, st := r.browsers[bi], r.st[bi]
+	attached := len(flashExpected(op)[0]) > 0
 	strictOK := false
 	switch {
 	case err != nil:
-		r.fail("C12.strict-client-response", "op%d b%d: net/http cannot parse the response to POST /go with %s: %v", op.id, bi, flashList(op.with), err)
-	case !wire.found && !stored:
+		r.fail("C12.strict-client-response", "op%d b%d: net/http cannot parse the response to %s with %s: %v", op.id, bi, what, flashList(op.with), err)
+	case !wire.live && !stored:
 		strictOK = true // no cookie issued
-	case wire.found && !stored:
+	case wire.live && !stored:
 		off, bad := -1, byte(0)
 		for i := 0; i < len(wire.value); i++ {
 			if c := wire.value[i]; c < 0x20 || c >= 0x7f || c == '"' || c == ';' || c == '\\' {
@@ -1161,14 +1208,14 @@ func (r *flashRun) redirect(bi int) {
 	default:
 		strictOK = true
 	}
-	st.pending, st.hostile, st.tier, st.after = nil, nil, "", false
 	outcome := "no-cookie"
 	switch {
-	case !wire.found && !stored:
+	case !wire.live && !stored:
 		if attached {
-			r.fail("C12.deliver-no-cookie", "op%d b%d: redirect with %s %s issued no %s cookie", op.id, bi, flashList(op.with), flashList(op.inputs), flashName)
+			r.fail("C12.deliver-no-cookie", "op%d b%d: %s redirecting with %s %s issued no %s cookie", op.id, bi, what, flashList(op.with), flashList(op.inputs), flashName)
 		}
 	case strictOK:
+		b.Set(flashName, sv)
 		st.pending, st.tier = op, "strict"
 		outcome = "strict"
 	case wire.problem != "":
@@ -1177,7 +1224,7 @@ func (r *flashRun) redirect(bi int) {
 		if wire.kind == "header-injection" {
 			id = "C12.header-injection"
 		}
-		r.fail(id, "op%d b%d: redirect with %s %s: %s", op.id, bi, flashList(op.with), flashList(op.inputs), wire.problem)
+		r.fail(id, "op%d b%d: %s redirecting with %s %s: %s", op.id, bi, what, flashList(op.with), flashList(op.inputs), wire.problem)
 		delete(b.Cookies, flashName)
 		outcome = "undeliverable"
 		s.Count("probe_cookie_unusable_for_any_client")
@@ -1192,10 +1239,7 @@ func (r *flashRun) redirect(bi int) {
 			r.armour = a
 		}
 	}
-	r.remember(op.with)
-	r.remember(op.inputs)
-	s.Logf("op%d ret status=%d location=%q set-cookie=%v tier=%s", op.id, resp.Status, resp.Get("Location"), wire.found, outcome)
-	r.h.str("go").int(bi).str(outcome)
+	return outcome
 }
 
 // noneExpected: a request without the cookie must observe no messages.
@@ -1230,6 +1274,11 @@ func (r *flashRun) request(bi int, kind string, depth int) {
 	if st.hostile != nil && st.hostile.bomb > 0 && s.Chance(400) {
 		op.read = false // the cost is then the decoder's alone
 	}
+	if kind == "hop2" {
+		budget := 600
+		r.genWith(op, simrt.PickS(s, 1, 2, 3), &budget)
+	}
+	hopping := kind == "hop" || kind == "hop2"
 	r.ops = append(r.ops, op)
 	cookie, has := b.Get(flashName)
 	pending, hostile := st.pending, st.hostile
@@ -1292,6 +1341,9 @@ func (r *flashRun) request(bi int, kind string, depth int) {
 	} else {
 		s.Logf("op%d b%d %s read=%v probes=%q", op.id, bi, what, op.read, op.probeKeys)
 	}
+	if kind == "hop2" {
+		s.Logf("op%d then redirects with=%s hasLevel=%v", op.id, flashList(op.with), op.hasLevel)
+	}
 	raw := req.Bytes()
 	if len(raw) > 3600 {
 		// beyond one read buffer: not a case of this property
@@ -1304,9 +1356,21 @@ func (r *flashRun) request(bi int, kind string, depth int) {
 	if r.dead {
 		return
 	}
-	if _, err := b.Apply(resp, "GET"); err != nil {
-		r.fail("C12.strict-client-response", "op%d b%d: net/http cannot parse the response to %s: %v", op.id, bi, what, err)
+	_, applyErr := b.Apply(resp, "GET")
+	if applyErr != nil && !hopping {
+		r.fail("C12.strict-client-response", "op%d b%d: net/http cannot parse the response to %s: %v", op.id, bi, what, applyErr)
 	}
+	// a hop writes a redirect of its own: what do the clients make of this response alone
+	var wire flashWire
+	var psv string
+	var pstored bool
+	if hopping {
+		wire = flashLenient(resp.Raw, flashName, op.srvCookie)
+		probe := harness.NewBrowser("probe")
+		_, _ = probe.Apply(resp, "GET")
+		psv, pstored = probe.Get(flashName)
+	}
+	replaced := kind == "hop2" && wire.live // a new cookie of the same name takes the place of the old one
 	s.Logf("op%d ret status=%d ran=%v observed=%s", op.id, resp.Status, op.ran, flashList(op.msgs))
 	r.checkProbes(op, what)
 	outcome := "none"
@@ -1316,6 +1380,8 @@ func (r *flashRun) request(bi int, kind string, depth int) {
 		// (once) the response must have expired the cookie in the client's store
 		if outcome == "rejected" {
 			delete(b.Cookies, flashName) // the exchange failed before: nothing to say about expiry
+		} else if replaced {
+			// settled below: whichever client tier can take the new cookie holds it instead
 		} else if _, still := b.Get(flashName); still {
 			r.fail("C12.once-cookie-not-expired", "op%d b%d: the response to %s leaves the cookie in the client's store (Set-Cookie lines: %q): a conforming client presents the messages of op%d again", op.id, bi, what, resp.Header["Set-Cookie"], pending.id)
 			delete(b.Cookies, flashName) // re-synchronise: act as if it had been expired
@@ -1328,6 +1394,17 @@ func (r *flashRun) request(bi int, kind string, depth int) {
 	default:
 		r.noneExpected(op, resp, what)
 		st.after = false
+	}
+	if hopping && op.ran {
+		delete(b.Cookies, flashName) // the previous cookie has been judged above
+		if kind == "hop2" {
+			outcome += "+" + r.issue(bi, op, wire, applyErr, what, psv, pstored)
+			r.remember(op.with)
+			st.after = false
+		} else if applyErr != nil {
+			r.fail("C12.strict-client-response", "op%d b%d: net/http cannot parse the response to %s: %v", op.id, bi, what, applyErr)
+		}
+		s.Logf("op%d hop location=%q new-cookie=%v store=%s", op.id, resp.Get("Location"), wire.live, outcome)
 	}
 	if has && kind != "nest" {
 		bound := uint64(64<<10 + 64*len(cookie))
